@@ -64,6 +64,15 @@ fn ext_for(lang: &str) -> &'static str {
         "javascript" => "js",
         "git-commit" => "COMMIT_EDITMSG",
         "literate haskell" => "lhs",
+        "typescript" => "ts",
+        "java" => "java",
+        "go" => "go",
+        "c" => "c",
+        "lua" => "lua",
+        "shellscript" => "sh",
+        "toml" => "toml",
+        "haskell" => "hs",
+        "ruby" => "rb",
         _ => "txt",
     }
 }
@@ -306,6 +315,7 @@ fn editor_case() -> BoxedStrategy<EditorCase> {
         1 => Just("rust".to_string()),
         1 => Just("python".to_string()),
         1 => Just("javascript".to_string()),
+        2 => g::sel_str(&["typescript", "java", "go", "c", "lua", "shellscript", "toml", "haskell", "ruby"]),
     ];
     lang.prop_flat_map(|lang| {
         let text = match lang.as_str() {
@@ -315,6 +325,22 @@ fn editor_case() -> BoxedStrategy<EditorCase> {
             "python" => editor_text()
                 .prop_map(|t| t.lines().map(|l| format!("# {l}")).collect::<Vec<_>>().join("\n"))
                 .boxed(),
+            "typescript" | "java" | "go" | "c" | "lua" | "shellscript" | "toml" | "haskell" | "ruby" => {
+                let spec = crate::generators::program::lang_spec(lang.as_str()).expect("language table");
+                let leader = spec.line[0];
+                let prologue = spec.prologue;
+                let code = spec.code[0].replace("{id}", "x").replace("{s}", "😀 ünï");
+                (editor_text(), any::<bool>())
+                    .prop_map(move |(t, code_first)| {
+                        let body = t.lines().map(|l| format!("{leader} {l}")).collect::<Vec<_>>().join("\n");
+                        if code_first {
+                            format!("{prologue}{code}\n{body}")
+                        } else {
+                            format!("{prologue}{body}\n{code}\n")
+                        }
+                    })
+                    .boxed()
+            }
             "html" => editor_text().prop_map(|t| format!("<p>{t}</p>")).boxed(),
             _ => editor_text(),
         };
